@@ -158,6 +158,15 @@ def rule_d3(repo, col):
     ap = c.methods.get("_append_node")
     okl = ln is not None and "len(self.__nodes) + self.__offset" in norm(ln.node)
     oka = ap is not None and "index = len(self)" in norm(ap.node) and "self.__nodes.append(node)" in norm(ap.node)
+    # identifiers must be offset-aware: len(self.__nodes) may only be used by __len__ itself
+    for name, f in c.methods.items():
+        if name in ("__len__",):
+            continue
+        for n in walk_no_nested(f.node):
+            if isinstance(n, ast.Call) and norm(n) == "len(self.__nodes)":
+                col.fail("D3", m, n, "ClauseDB.%s derives an identifier from len(self.__nodes), the number of nodes of THIS database only; in an extension that count restarts at 0, "
+                         "so the identifier can coincide with one of the parent (e.g. the group id of an annotated disjunction); use len(self), which adds the offset" % name,
+                         function="ClauseDB.%s" % name)
     col.decide("D3", m, ln.node if ln is not None else c.node, okl and oka, "__len__ and _append_node agree on offset arithmetic",
                "len(db) must be len(own nodes) + offset and _append_node must return that value before appending", construct="__len__/_append_node", function="ClauseDB")
 
